@@ -24,6 +24,12 @@ checks = {
  "C08": dict(cat="exploration", tech="bounded-exhaustive enumeration with structural invariants and an independent byte-offset walk on every returned match",
    text="Every match returned by the string chain, the rune chain and the StartingAt calls for every enumerated (pattern, options, byte-string input) is checked: captures inside the input, group 0 = the match, embedded capture = last capture, String()/Runes() = addressed slice, ByteRange() = offsets from an independent utf8.DecodeRuneInString walk (invalid byte = 1 rune = 1 byte), consistent with find-all and adapter byte indexes.",
    note="Bounds as printed; inputs include multi-byte runes, literal U+FFFD, 0xFF and a truncated sequence.", ref="4 C08"),
+ "C04": dict(cat="exploration", tech="bounded-exhaustive enumeration; every published compile-time fact evaluated at every position where the single anchored attempt (verif hook) succeeds",
+   text="For every enumerated pattern (every find mode reached; code-gen analysis on/off; both directions), every input up to the bound and every attempt position, if the compiled program matches there then each published fact (min/max length, leading/trailing anchor, prefix(es), fixed-distance literal/sets and their summaries, literal-after-loop, landmark chain, first-char set, Boyer-Moore prefix, anchor bits) must hold at that position.",
+   note="Trusted: hook VerifAttemptAt. MinRequiredLength is read as 'input remaining in scan direction', the reading all consumers use.", ref="4 C04"),
+ "C13": dict(cat="exploration", tech="bounded-exhaustive enumeration incl. a sweep of EVERY stack limit from 0 to 4*T0+16 relative to each pattern's own initial allocation",
+   text="Breadth (five families x inputs x limits 0..72,100,1000,default) plus a STACK family built to fill the stack between two capacity checks, swept over every limit around every doubling boundary: result equals the unlimited result or ErrBacktrackingStackLimit, no panic, stack capacity <= L, success monotone in L, Regexp usable afterwards.",
+   note="Trusted: hook VerifScanStats (stack capacity). Pairs whose unlimited run needs > 300000 steps are skipped and counted (time, not stack).", ref="4 C13"),
  "C03": dict(cat="exploration", tech="bounded-exhaustive differential: accelerated scan vs naive scan of the same compiled program at every start offset",
    text="For every enumerated pattern (families chosen per search mode; code-gen analysis on/off; both directions) and every input and start offset, the public rune and string entry points must return exactly what the verif-only naive scan (attempt at every position, no filter, no candidate search, no cut-off) returns for the same compiled program.",
    note="Trusted: the hook VerifNaiveScan and the interpreter itself (it is common to both sides; its meaning is C01's business). Bounds as printed in the evidence.", ref="4 C03"),
